@@ -313,10 +313,11 @@ Record cfg := {
   c_batch : bool;    (* unmarshalRows overwrites the error line by line *)
   c_plus : bool;     (* a float literal with a leading '+' is accepted and read as 0 *)
   c_strq : bool;     (* a value containing a quote but not starting with one is accepted as "" *)
-  c_negdot : bool    (* "-ddd." (trailing point, at most 17 digits) loses its sign *)
+  c_negdot : bool;   (* "-ddd." (trailing point, at most 17 digits) loses its sign *)
+  c_tswrap : bool    (* timestamp * precision factor wraps around int64 instead of being refused *)
 }.
-Definition cfg_current : cfg := {| c_int53 := true; c_fsuffix := true; c_batch := true; c_plus := true; c_strq := true; c_negdot := true |}.
-Definition cfg_repaired : cfg := {| c_int53 := false; c_fsuffix := false; c_batch := false; c_plus := false; c_strq := false; c_negdot := false |}.
+Definition cfg_current : cfg := {| c_int53 := true; c_fsuffix := true; c_batch := true; c_plus := true; c_strq := true; c_negdot := true; c_tswrap := true |}.
+Definition cfg_repaired : cfg := {| c_int53 := false; c_fsuffix := false; c_batch := false; c_plus := false; c_strq := false; c_negdot := false; c_tswrap := false |}.
 
 (* field values: what is stored for the field *)
 Inductive fval : Type :=
@@ -552,18 +553,27 @@ Definition parse_batch (c : cfg) (s : bytes) : list row * bool := batch_go c (sp
 
 (* unmarshalWork.Unmarshal + the write callback of serveWrite: a block with a reported parse error or with a row
    without measurement name is rejected as a whole (nothing of it is stored); otherwise every row is stored with
-   its timestamp multiplied by the precision factor (wrapping int64 multiplication, as the code does). *)
+   its timestamp multiplied by the precision factor (today: wrapping int64 multiplication; repaired: a product beyond
+   int64 refuses the block). *)
 Definition wrap64 (z : Z) : Z := (z + 2 ^ 63) mod 2 ^ 64 - 2 ^ 63.
 
-Definition scale_row (mult : Z) (r : row) : row :=
-  {| r_name := r_name r; r_tags := r_tags r; r_fields := r_fields r;
-     r_ts := match r_ts r with Some t => Some (wrap64 (t * mult)) | None => None end |}.
+Definition scale_row (c : cfg) (mult : Z) (r : row) : result row :=
+  match r_ts r with
+  | None => Ok r
+  | Some t =>
+      let v := t * mult in
+      if c_tswrap c then
+        Ok {| r_name := r_name r; r_tags := r_tags r; r_fields := r_fields r; r_ts := Some (wrap64 v) |}
+      else if v <=? max_int64 then
+        Ok {| r_name := r_name r; r_tags := r_tags r; r_fields := r_fields r; r_ts := Some v |}
+      else Err
+  end.
 
 Definition accept_block (c : cfg) (mult : Z) (s : bytes) : result (list row) :=
   let '(rows, err) := parse_batch c s in
   if err then Err
   else if existsb (fun r => match r_name r with [] => true | _ => false end) rows then Err
-  else Ok (map (scale_row mult) rows).
+  else map_result (scale_row c mult) rows.
 
 End WithDec2f.
 
